@@ -85,7 +85,7 @@ def _grammar_prefixes(ctx, R):
 )
 def r24_2(ctx, rep):
     R = "R24.2"
-    fn = ctx.func(SYM, CLS + ".exitClass", R)
+    fn = _with_dict_keys_spelled_out(ctx.func(SYM, CLS + ".exitClass", R))
     site = "%s:%s.exitClass" % (SYM, CLS)
     chain_lits, has_else = None, False
     for lp in walk_local(fn):
@@ -100,6 +100,10 @@ def r24_2(ctx, rep):
                 t = node.test
                 if isinstance(t, ast.Compare) and is_name(t.left, v) and isinstance(t.ops[0], ast.Eq):
                     lits.append(const_str(t.comparators[0]))
+                elif isinstance(t, ast.Compare) and is_name(t.left, v) and isinstance(t.ops[0], ast.In) and isinstance(literal(t.comparators[0]), (set, list, tuple)):
+                    # table dispatch: `if prefix in {keys of the table}: table[prefix].append(s)`
+                    if any(isinstance(x, ast.Subscript) and is_name(x.slice, v) for b in node.body for x in ast.walk(b)):
+                        lits.extend(sorted(literal(t.comparators[0])))
                 if len(node.orelse) == 1 and isinstance(node.orelse[0], ast.If):
                     node = node.orelse[0]
                 else:
@@ -129,6 +133,45 @@ def r24_2(ctx, rep):
     for pfx in chain_lits:
         if top is not None and _no_class_test(top[0], top[1], [pfx]) is not False:
             rep.ob(R, site, "prefix %s dispatched" % pfx, False, "a symbol with prefix `%s` is sent to the variables list instead of its own list" % pfx)
+
+
+def _with_dict_keys_spelled_out(fn):
+    """a copy of fn in which the key set of a local dispatch table — a name bound once to a dict display with string keys — is written out:
+    `set(T)`, `T.keys()`, `list(T)` and `x in T` become the literal set of its keys, so `if p in T: T[p].append(s)` reads like the if/elif
+    chain it replaces"""
+    from ..pyutil import ast_copy
+    fn = ast_copy(fn)
+    tables = {}
+    counts = {}
+    for st in ast.walk(fn):
+        if isinstance(st, ast.Assign) and len(st.targets) == 1 and isinstance(st.targets[0], ast.Name):
+            counts[st.targets[0].id] = counts.get(st.targets[0].id, 0) + 1
+            if isinstance(st.value, ast.Dict) and st.value.keys and all(isinstance(k, ast.Constant) and isinstance(k.value, str) for k in st.value.keys):
+                tables[st.targets[0].id] = [k.value for k in st.value.keys]
+    tables = {k: v for k, v in tables.items() if counts.get(k) == 1}
+    if not tables:
+        return fn
+
+    def keyset(name):
+        return ast.Set(elts=[ast.Constant(value=k) for k in tables[name]])
+
+    class T(ast.NodeTransformer):
+        def visit_Call(self, n):
+            self.generic_visit(n)
+            if isinstance(n.func, ast.Name) and n.func.id in ("set", "list", "tuple", "frozenset", "sorted") and len(n.args) == 1 and isinstance(n.args[0], ast.Name) \
+                    and n.args[0].id in tables:
+                return keyset(n.args[0].id)
+            if isinstance(n.func, ast.Attribute) and n.func.attr == "keys" and isinstance(n.func.value, ast.Name) and n.func.value.id in tables and not n.args:
+                return keyset(n.func.value.id)
+            return n
+
+        def visit_Compare(self, n):
+            self.generic_visit(n)
+            if len(n.ops) == 1 and isinstance(n.ops[0], (ast.In, ast.NotIn)) and isinstance(n.comparators[0], ast.Name) and n.comparators[0].id in tables:
+                n.comparators = [keyset(n.comparators[0].id)]
+            return n
+
+    return ast.fix_missing_locations(T().visit(fn))
 
 
 def _truth(test, var, prefixes):
